@@ -153,6 +153,7 @@ func (ex *Exec) execInstr(fr *Frame, st *State, in ssa.Instruction) {
 			st.cells[x] = zeroVal(et)
 			fr.regs[x] = &LocalPtr{Cell: x}
 		} else {
+			ex.allocAsserts(fr, st, x)
 			p := ex.newObj()
 			st.heap.store(p, et, zeroVal(et))
 			fr.regs[x] = p
@@ -169,7 +170,7 @@ func (ex *Exec) execInstr(fr *Frame, st *State, in ssa.Instruction) {
 		case *LocalPtr:
 			fr.regs[x] = &LocalPtr{Cell: p.Cell, Path: append(append([]pathElem{}, p.Path...), pathElem{Field: x.Field})}
 		case *Term:
-			fr.regs[x] = Fld(p, x.Field)
+			fr.regs[x] = Fld(p, fieldID(elemOfPtr(x.X.Type()).Underlying().(*types.Struct), x.Field))
 		default:
 			unsupp("FieldAddr on %T", base)
 		}
@@ -457,12 +458,13 @@ func (ex *Exec) ifaceEq(x, y *Agg) *Term {
 	if n, ok := xt.IsInt(); ok && n == 0 {
 		return Eq(yt, IntT(0))
 	}
-	// dynamic values: equal tags and equal payload pointers (exact for pointer-shaped dynamic types;
-	// for boxed values identity of the box is a sufficient, not necessary, condition).
-	both := And(Eq(xt, yt), Eq(x.F[1].(*Term), y.F[1].(*Term)))
+	// Dynamic values: for pointer-shaped dynamic types equality is tag and payload identity; for
+	// boxed (non-pointer) dynamic types identical boxes are sufficient but not necessary.
+	same := And(Eq(xt, yt), Or(Eq(xt, IntT(0)), Eq(x.F[1].(*Term), y.F[1].(*Term))))
 	r := Fresh("ifaceeq", SBool)
-	ex.fact(nil, Implies(both, r))
-	ex.fact(nil, Implies(r, Eq(xt, yt)))
+	boxed := UF("boxedtag", SBool, xt)
+	ex.fact(nil, Implies(same, r))
+	ex.fact(nil, Implies(r, And(Eq(xt, yt), Or(boxed, Eq(xt, IntT(0)), Eq(x.F[1].(*Term), y.F[1].(*Term))))))
 	return r
 }
 
@@ -746,3 +748,43 @@ func (ex *Exec) next(fr *Frame, st *State, x *ssa.Next) Val {
 }
 
 var _ = fmt.Sprintf
+
+
+// allocAsserts evaluates `assert@alloc(T,k)` clauses anchored at the k-th heap allocation of type T.
+func (ex *Exec) allocAsserts(fr *Frame, st *State, x *ssa.Alloc) {
+	if fr.con == nil || len(fr.con.Asserts) == 0 || ex.spec > 0 || fr.parent != nil {
+		return
+	}
+	nt, ok := elemOfPtr(x.Type()).(*types.Named)
+	if !ok {
+		return
+	}
+	// ordinal among heap allocations of this type, by source position
+	ord := 0
+	for _, b := range fr.fn.Blocks {
+		for _, in := range b.Instrs {
+			if a, ok := in.(*ssa.Alloc); ok && a.Heap && a != x {
+				if n2, ok := elemOfPtr(a.Type()).(*types.Named); ok && n2.Obj() == nt.Obj() && a.Pos() < x.Pos() {
+					ord++
+				}
+			}
+		}
+	}
+	anchor := fmt.Sprintf("alloc(%s,%d)", nt.Obj().Name(), ord)
+	for _, cl := range fr.con.Asserts {
+		if fr.con.Anchors[cl] != anchor {
+			continue
+		}
+		env := ex.funcEnv(fr, st)
+		env.pos = x.Pos()
+		for h, body := range fr.li.body {
+			if body[x.Block()] {
+				if env.loop == nil || fr.li.body[env.loop][h] {
+					env.loop = h
+				}
+			}
+		}
+		ex.oblige(fr, st, "assert@"+anchor, cl.Label, env.evalBool(cl.Text), x.Pos(), cl.Text)
+		fr.assertsDone[cl] = true
+	}
+}
